@@ -5,6 +5,7 @@ import itertools
 import canon_common as cc
 import lib
 import norm_common as nc
+import normwhole as nw
 import urlgen
 
 ID = "C05"
@@ -44,6 +45,19 @@ THEOREMS = [
     "Ural.Normalize.sortQsl_perm",
     "Ural.Normalize.delSubB_iff",
 ]
+THEOREMS += [
+    # the parser inside the model (Props/C05Whole.lean)
+    "Ural.Normalize.normalizeUrlString_eq",
+    "Ural.Normalize.normalizeUrlStringSplit_eq",
+    "Ural.NormBridge.parse_str",
+    "Ural.NormBridge.normalizeUrlSplit_grammar",
+    "Ural.Props.C05.normalize_string_split",
+    "Ural.Props.C05.normalize_unparseable_string",
+    "Ural.Props.C05.normalize_bad_port_string",
+    "Ural.Props.C05.normalize_total_string",
+    "Ural.Props.C05.normalize_only_deletes_string",
+]
+EXTRA_IMPORTS = ["UralModel.Props.C05Whole"]
 TABLE_OBLIGATIONS = [
     "Ural.Props.C05.irrelevantSubdomain_pattern",
     "Ural.Props.C05.irrelevantSubdomainAmp_pattern",
@@ -77,7 +91,7 @@ EXHAUSTIVE = {
 }
 TRUSTED = [
     "Lean 4 kernel; axioms audited",
-    "urlsplit and the SplitResult accessors are CPython: the harness parses the prepared string with the real parser and ships the components to the model; urlunsplit is modelled by hand (compared on every run)",
+    "urlsplit and the SplitResult accessors: (a) component-level lines (`norm_parts`): CPython, the harness parses the prepared string with the real parser and ships the components to the model; (b) whole-function lines (`normalize_whole`, every case): the model's own parser (Py/UrlSplit.lean, Py/UrlAccessors.lean) inside Model/NormalizeUrl.lean — string + options in, result out — compared with the real normalize_url; strings outside the parser model's stated domain are counted (whole:outside-model:*) and withheld. The hand parser is compared with CPython, not proved equal to it; urlunsplit is modelled by hand (compared on every run)",
     "attempt_to_decode_idna (CPython idna codec) is the abstract parameter `puny`; the driver uses a per-case table computed by the real codec",
     "hand-written model Model/Normalize.lean (+ Model/UrlParts, Model/Quote, Model/Redirect for infer_redirection), tied to the code by differential execution; regexes with look-around are hand scanners tied to the regenerated pattern strings (obligation) and to the real compiled regexes on regenerated probe lists (obligation) and on every case of the stream",
     "the platform_aware branch (facebook / youtube parsers) is not modelled: abstract `platform`, the harness ships the rewritten URL's components",
@@ -89,8 +103,14 @@ ASSUMPTIONS = [
 ]
 UNPROVED = (
     "platform_aware=True where the facebook/youtube branch rewrites the URL: FullPlatform is false "
-    "(fullPlatform_false); explored by correspondence only. The theorems are about "
-    "Parsed records; that urlsplit produces them is CPython (shipped per case). Totality is by the model's "
+    "(fullPlatform_false); explored by correspondence only. The theorems of Props/C05.lean are about "
+    "Parsed records; Props/C05Whole.lean transports them to STRINGS for the modelled parser: for every string whose cleaned, "
+    "resolved form is in the grammar class of Lemmas/NormBridge.lean (scheme prefix / '//' / nothing, userinfo without /?#[], "
+    "host name or bracketed IP literal, port text, absolute path, query, fragment) the result tuple is normParts of the record whose fields are "
+    "the pieces of the string (normalize_string_split), hence host / port / path / query are deletions of the pieces "
+    "(normalize_only_deletes_string); an unparseable string is returned unchanged (normalize_unparseable_string: every string). "
+    "Outside the class (relative paths, brackets in the userinfo) and for the real parser: correspondence (norm_parts with the shipped "
+    "Parsed, normalize_whole with the modelled parser) + oracle. Totality is by the model's "
     "type (no error value); that the implementation never raises is checked by correspondence and the oracle."
 )
 
@@ -185,13 +205,14 @@ def _url(case):
 def ops(case):
     if case["kind"] == "fn":
         return [case["op"]]
-    return nc.ops(_url(case), case["opts"])
+    # component-level lines (real parser's Parsed shipped), then the whole function on the string
+    return nc.ops(_url(case), case["opts"]) + nw.norm_ops(_url(case), case["opts"])
 
 
 def impl(case):
     if case["kind"] == "fn":
         return [lib.guarded(nc.fn_impl, case["op"])]
-    return nc.impl(_url(case), case["opts"])
+    return nc.impl(_url(case), case["opts"]) + nw.norm_impl(_url(case), case["opts"])
 
 
 # ---------------------------------------------------------------------------------------
@@ -518,7 +539,7 @@ def classify(case):
         return ["fn:" + case["op"]["f"]]
     url = _url(case)
     o = nc.full_opts(case["opts"])
-    labs = ["url"]
+    labs = ["url", nw.label(url, o)]
     for k in nc.ALL_OPTS:
         if o[k] != nc.DEFAULTS[k]:
             labs.append("%s=%s" % (k, o[k]))
